@@ -295,8 +295,34 @@ pub fn grow_alphabet(n: usize, len: usize) -> Vec<Act> {
     }
     for mm in 0..=n {
         v.push(CloneFrom(mm, 0));
+        v.push(ExtendFromBuf(mm, 0));
         if n > 1 {
             v.push(CloneFrom(mm, n - 1));
+            v.push(ExtendFromBuf(mm, n - 1));
+        }
+    }
+    v
+}
+
+/// nth / nth_back enriched step sequences (probes): `kinds` are StepsOn source kinds; ranges are all
+/// valid half-open ranges for the range-taking kinds
+pub fn steps_probes(n: usize, len: usize, kinds: &[usize], max_len: usize) -> Vec<Act> {
+    let max_len = if n > 8 { max_len.min(2) } else { max_len };
+    let seqs = Steps::all_up_to(max_len);
+    let mut v = vec![];
+    for &k in kinds {
+        if k == 2 || k == 3 || k == 5 {
+            for a in 0..=len {
+                for b in a..=len {
+                    for st in &seqs {
+                        v.push(Act::StepsOn(k, Rs::half_open(a, b), *st));
+                    }
+                }
+            }
+        } else {
+            for st in &seqs {
+                v.push(Act::StepsOn(k, Rs { sk: 2, a: 0, ek: 2, b: 0 }, *st));
+            }
         }
     }
     v
